@@ -3,6 +3,7 @@ package pongo2
 import (
 	"bytes"
 	"fmt"
+	"reflect"
 )
 
 type nodeFilterCall struct {
@@ -33,11 +34,12 @@ func (node *tagFilterNode) Execute(ctx *ExecutionContext, writer TemplateWriter)
 			if err != nil {
 				return err
 			}
-			if ctx.Autoescape && !param.safe && (param.IsString() || rendersText(param)) {
+			if ctx.Autoescape {
 				// The body has been rendered (and escaped) already and the result of
-				// the chain is written as it is, so a text parameter has to be
-				// brought into the same escaped form first.
-				param, err = ApplyFilter("escape", param, nil)
+				// the chain is written as it is, so a text parameter (or the text
+				// items of a list parameter) has to be brought into the same
+				// escaped form first.
+				param, err = escapedFilterParam(param)
 				if err != nil {
 					return err
 				}
@@ -54,6 +56,34 @@ func (node *tagFilterNode) Execute(ctx *ExecutionContext, writer TemplateWriter)
 	writer.WriteString(value.String())
 
 	return nil
+}
+
+// escapedFilterParam escapes a parameter of the filter tag: text as a whole, a
+// list item by item (a filter like join or first may hand the items out).
+func escapedFilterParam(param *Value) (*Value, *Error) {
+	if param == nil || param.safe || param.IsNil() {
+		return param, nil
+	}
+	if param.IsString() || rendersText(param) {
+		return ApplyFilter("escape", param, nil)
+	}
+	rv := param.getResolvedValue()
+	if rv.Kind() != reflect.Slice && rv.Kind() != reflect.Array {
+		return param, nil
+	}
+	items := make([]*Value, 0, rv.Len())
+	for i := 0; i < rv.Len(); i++ {
+		item := param.Index(i)
+		if inner, ok := item.Interface().(*Value); ok && inner != nil {
+			item = inner // an item of a list written in the template
+		}
+		escaped, err := escapedFilterParam(item)
+		if err != nil {
+			return nil, err
+		}
+		items = append(items, escaped)
+	}
+	return AsValue(items), nil
 }
 
 func tagFilterParser(doc *Parser, start *Token, arguments *Parser) (INodeTag, *Error) {
